@@ -203,8 +203,8 @@ def merge_shape(ctx, res, rule):
                     rootl = T.peel_ref(rootl["recv"])
                 if okchain and T.local_of(rootl) in iters and tags == [False]:
                     tail_ok = True
-            if not inside and any((".iter().skip(%s)" % lets[c]["pat"]["name"]) in r for c in cursors) and "false" in r and ".filter(" not in r and ".take(" not in r \
-                    and not [p for p in parents if p.get("k") == "if"]:
+            if not inside and any(("%s.%s().skip(%s)" % (lets[pend_final]["pat"]["name"], it_, lets[c]["pat"]["name"])) in r for c in cursors for it_ in ("iter", "into_iter")) \
+                    and "false" in r and ".filter(" not in r and ".take(" not in r and ".step_by(" not in r and not [p for p in parents if p.get("k") == "if"]:
                 tail_ok = True        # ranges_pending.iter().skip(cursor): the same tail as ranges_pending[cursor..]
             if not inside and any(("[%s.." % lets[c]["pat"]["name"]) in r for c in cursors) and "false" in r:
                 # unconditional, or guarded only by "something is left"
